@@ -74,7 +74,8 @@ type Explorer struct {
 	Transitions int64
 	NoOps       int64 // transitions that led back to the same state
 	Depth       int
-	Exhaustive  bool
+	Exhaustive  bool // closure reached (frontier emptied)
+	BoundDone   bool // the declared depth bound was completed without hitting the state cap
 	Blocked     int64
 	Hists       [][]world.Op
 	Findings    map[string]*FindingRec
@@ -153,6 +154,7 @@ func (e *Explorer) Run() {
 	for depth := 0; len(frontier) > 0; depth++ {
 		if e.MaxDepth > 0 && depth >= e.MaxDepth {
 			e.Exhaustive = false
+			e.BoundDone = true
 			break
 		}
 		e.Depth = depth + 1
